@@ -33,7 +33,7 @@ fn floors(_t: Tier) -> Vec<(&'static str, u64)> {
     vec![("evaluations", 8_000), ("refusals_observed", 200), ("softmax_rows_monitored", 300), ("elements_compared", 50_000)]
 }
 
-const FUNCS: u64 = 33;
+const FUNCS: u64 = 34;
 const POWF_EXP: [f64; 8] = [-2.0, -1.0, -0.5, 0.5, 1.0, 2.0, 3.0, 3.5];
 
 fn check_value(ctx: &mut Ctx, name: &str, d: &[usize], vals_in: &[f64], kind: &OpKind, exact: bool) {
@@ -299,6 +299,25 @@ pub fn run_case(ctx: &mut Ctx, fam: &str, k: u64, r: &mut Rng) {
             let lim = if IS_F32 { 126 } else { 1022 };
             let v: Vec<f64> = (0..n).map(|_| (2.0f64).powi(r.int(-(lim as i64), lim as i64) as i32) * if r.chance(1, 2) { -1.0 } else { 1.0 }).collect();
             check_value(ctx, "reciprocal", &d, &v, &OpKind::Recip, false)
+        }
+        33 => {
+            // rows of a thousand and more values, several of them: every row is reduced on its own
+            name = "sum-long".into();
+            let rows = r.range(2, 4);
+            let len = r.range(1000, 2300);
+            let dd = if r.chance(1, 2) { vec![rows, len] } else { vec![rows, 2, len / 2] };
+            let nn: usize = dd.iter().product();
+            let vv = rand_ints(r, nn, -9, 9);
+            for kk in 1..dd.len() {
+                check_value(ctx, "sum", &dd, &vv, &OpKind::Sum(kk), true);
+            }
+            let a = arr(&dd, &vv);
+            let want: f64 = vv.iter().sum();
+            match guard(|| a.sum_all() as f64) {
+                Ok(g) if g == want => {}
+                Ok(g) => ctx.violation("C07|sum_all|wrong-values", format!("sum_all of {:?} = {} want {}", dd, g, want)),
+                Err(m) => ctx.violation("C07|sum_all|panic", format!("sum_all of {:?} panicked: {}", dd, m)),
+            }
         }
         32 => {
             // x^0 is 1 for every x, zero and negative bases included
